@@ -9,14 +9,16 @@ pauses and losses, stops).  The tie to the code is the correspondence of `harnes
 and the regenerated `Generated/Rpc.lean` (wire constants, the attribute table of
 `DirectorHandler`, the exception classes).
 
-Two statements of the property are false of the code as literally stated; each is kept as a
+Three statements of the property are false of the code as literally stated; each is kept as a
 `def ... : Prop` with a `_negation` witness (replayed on the real code by the harness) and the
 part that holds is proved as `_partial`:
 
 * `server_exactly_once`: a call whose handler completes after the stop event was set (the peer
   closed its side, sent the close request, or the server is stopping) gets no reply at all;
 * `client_pairing`: a reply with an unknown or already answered call id ends the receive loop
-  and fails every other pending call.
+  and fails every other pending call;
+* `failure_isolated` ("without disturbing other calls"): a result that cannot be pickled tears
+  the connection down and cancels the other handlers (not reachable through `DirectorHandler`).
 -/
 namespace StepupModel.Props.C16
 open StepupModel.P.Rpc StepupModel.Generated.Rpc
@@ -141,6 +143,32 @@ theorem server_reply_is_paired (c : Conn) (call : Call) (o : Outcome) (ha : c.se
     (hb : c.sendBlocked = false) (hq : c.queue = []) (hl : c.lost = false) :
     (complete c call o).sent = c.sent ++ [⟨call, o.kind⟩] :=
   complete_writes c call o ha hb hq hl
+
+/-- The full statement "a failure does not disturb other calls": whatever way a handler ends, the
+other handlers of the connection keep running.  False of the code for one kind of internal
+fault, see `failure_isolated_negation`. -/
+def failure_isolated_full : Prop :=
+  ∀ (cfg : Cfg) (evs : List Ev) (k : Nat) (o : Outcome) (x : Call), let c := run cfg {} evs
+    x ∈ c.inflight → c.invoked[k]?.map (·.1) ≠ some x → x ∈ (step cfg c (.complete k o)).inflight
+
+/-- Witness: two calls in flight, the first returns a value that cannot be pickled: the send loop
+raises after sending the sentinel, the connection is torn down and the second handler is
+cancelled.  (No procedure of `DirectorHandler` returns such a value.) -/
+theorem failure_isolated_negation : ¬ failure_isolated_full := by
+  intro h
+  have := h wCfg [.frame (.call 1 wName true), .frame (.call 2 wName true)] 0 .unpicklable ⟨1, 2⟩
+    (by decide) (by decide)
+  revert this
+  decide
+
+/-- What holds: a handler that ends with a result or with any exception (usage error or internal
+fault) leaves every other handler of the connection running, on every reachable state. -/
+theorem failure_isolated_partial (cfg : Cfg) (evs : List Ev) (k : Nat) (o : Outcome) (ho : o ≠ .unpicklable)
+    (x : Call) : let c := run cfg {} evs
+    x ∈ c.inflight → c.invoked[k]?.map (·.1) ≠ some x →
+      x ∈ (step cfg c (.complete k o)).inflight ∧ (step cfg c (.complete k o)).cancelled = c.cancelled := by
+  intro c hx hne
+  exact step_complete_keeps_others (inv_run evs (inv_init cfg)) k o ho x hx hne
 
 /-! ## (3) The client -/
 
